@@ -81,6 +81,16 @@ example :
     (resolve w "d".toList true "/x/../ y \t".toList).toOption = some "d/ y.arrai".toList ∧
     findRoot w "d".toList = some ["m".toList] := by decide
 
+/-- the factored form used by the bundle model (C15): what `//{./raw}` appends to the source directory
+is a function of `raw` alone -/
+theorem dot_import_factored (w : World) (srcDir raw f : Str) (h : resolve w srcDir true raw = .ok f) :
+    ∃ ns, dotRel raw = .ok ns ∧ comps w.cwd f = comps w.cwd srcDir ++ ns := resolve_dot_rel w srcDir raw f h
+
+/-- …and what `//{raw}` appends to the module root is a function of `raw` alone -/
+theorem root_import_factored (w : World) (srcDir raw f : Str) (h : resolve w srcDir false raw = .ok f) :
+    ∃ ms root, rootRel raw = .ok ms ∧ findRoot w srcDir = some root ∧ comps w.cwd f = root ++ ms :=
+  resolve_root_rel w srcDir raw f h
+
 /-! ### Part 2 — one file, one key -/
 
 /-- the directories `findRootFromModule` stores in the root cache (every directory visited on the way
